@@ -70,15 +70,20 @@ func defaultCleaner(c *Ctx) {
 		return
 	}
 	al := an.LinAtom("phi:" + accName(acc))
-	for i, e := range acc.Edges {
-		pred := acc.Block().Preds[i]
+	accLeaves, flat := phiLeaves(P, fn, acc, body, keepForms(xl, xl.Minus(al)))
+	if !flat {
+		q.undecided("MINFOLD", "accumulator takes offset iff 0 < offset < accumulator", "the accumulator is joined before the loop header under a further condition on the offset")
+		return
+	}
+	for _, lf := range accLeaves {
+		e, pred, succ := lf.v, lf.from, lf.to
 		switch {
 		case e == ssa.Value(size):
 			q.add("MINFOLD", "accumulator starts at size", !P.InCycle(pred.Instrs[len(pred.Instrs)-1]), "seed edge comes from outside the loop", pred.Instrs[0])
 		case e == ssa.Value(acc):
 		case e == ssa.Value(x):
 			want := an.DNF{conj(lit(xl, an.SPos), lit(xl.Minus(al), an.SNeg))}
-			got := P.EdgeCond(fn, body, pred, acc.Block(), keepForms(xl, xl.Minus(al)))
+			got := P.EdgeCond(fn, body, pred, succ, keepForms(xl, xl.Minus(al)))
 			ok, cex := an.EquivDNF(got, want)
 			q.add("MINFOLD", "accumulator takes offset iff 0 < offset < accumulator", ok,
 				pickS(ok, "update edge taken iff offset > 0 and offset - lowest < 0", "the lowest-offset fold is broken: the accumulator is updated iff ["+got.String()+"], expected iff ["+want.String()+"]; differs for "+cex), pred.Instrs[len(pred.Instrs)-1])
@@ -90,7 +95,7 @@ func defaultCleaner(c *Ctx) {
 					a0, a1 := call.Call.Args[0], call.Call.Args[1]
 					if (a0 == ssa.Value(acc) && a1 == ssa.Value(x)) || (a1 == ssa.Value(acc) && a0 == ssa.Value(x)) {
 						want := an.DNF{conj(lit(xl, an.SPos))}
-						got := P.EdgeCond(fn, body, pred, acc.Block(), keepForms(xl))
+						got := P.EdgeCond(fn, body, pred, succ, keepForms(xl))
 						good, _ = an.EquivDNF(got, want)
 					}
 				}
@@ -110,12 +115,17 @@ func defaultCleaner(c *Ctx) {
 		q.undecided("MINFOLD", "active flag", "no loop-carried boolean recording whether a positive offset was seen")
 		return
 	}
-	for i, e := range active.Edges {
-		pred := active.Block().Preds[i]
+	actLeaves, flat := phiLeaves(P, fn, active, body, keepForms(xl))
+	if !flat {
+		q.undecided("COND", "active := true iff offset > 0", "the active flag is joined before the loop header under a further condition on the offset")
+		return
+	}
+	for _, lf := range actLeaves {
+		e, pred, succ := lf.v, lf.from, lf.to
 		if e == ssa.Value(active) {
 			// unchanged: taken only for non-positive offsets (or before the loop)
 			if P.InCycle(pred.Instrs[len(pred.Instrs)-1]) {
-				got := P.EdgeCond(fn, body, pred, active.Block(), keepForms(xl))
+				got := P.EdgeCond(fn, body, pred, succ, keepForms(xl))
 				ok, _ := an.EquivDNF(got, an.DNF{conj(lit(xl, an.SNeg|an.SZero))})
 				okNeg, _ := an.EquivDNF(got, an.DNF{conj(lit(xl, an.SNeg))})
 				q.add("COND", "negative offsets are ignored", ok || okNeg, pickS(ok || okNeg, "flag unchanged exactly for non-positive offsets", "the active flag is left unchanged for some positive offset: "+got.String()), pred.Instrs[len(pred.Instrs)-1])
@@ -131,7 +141,7 @@ func defaultCleaner(c *Ctx) {
 			q.add("COND", "active starts false", !P.InCycle(pred.Instrs[len(pred.Instrs)-1]), "false only on the seed edge", pred.Instrs[0])
 			continue
 		}
-		got := P.EdgeCond(fn, body, pred, active.Block(), keepForms(xl))
+		got := P.EdgeCond(fn, body, pred, succ, keepForms(xl))
 		// the true edges together must cover exactly offset > 0; each one must at least imply it
 		implies, _ := an.ImpliesDNF(got, an.DNF{conj(lit(xl, an.SPos))})
 		q.add("COND", "active := true iff offset > 0", implies, pickS(implies, "set only for positive offsets", "active is set for a non-positive offset: "+got.String()), pred.Instrs[len(pred.Instrs)-1])
@@ -173,6 +183,43 @@ func defaultCleaner(c *Ctx) {
 		q.add("PROV", "returns only 0 or the lowest offset", false, "returns "+v.String()+", which is neither 0 nor the accumulator", r)
 	}
 	q.add("PROV", "returns only 0 or the lowest offset", n0 >= 1 && nAcc == 1, pickS(n0 >= 1 && nAcc == 1, "return values are the constant 0 and the accumulator", "expected returns of 0 and of the accumulator"))
+}
+
+// phiLeaves flattens the edges of a loop-header phi through join phis that sit
+// inside the loop body (the end of a switch or if-chain): each leaf is a
+// value and the CFG edge on which it is chosen. A nested join is only
+// flattened when the way from it to the header does not depend on the kept
+// forms, so the condition of the leaf edge is the condition of the update.
+type phiLeaf struct {
+	v        ssa.Value
+	from, to *ssa.BasicBlock
+}
+
+func phiLeaves(P *an.Prog, fn *ssa.Function, header *ssa.Phi, body *ssa.BasicBlock, keep func(string) bool) ([]phiLeaf, bool) {
+	var out []phiLeaf
+	ok := true
+	seen := map[*ssa.Phi]bool{header: true}
+	var walk func(ph *ssa.Phi)
+	walk = func(ph *ssa.Phi) {
+		for i, e := range ph.Edges {
+			pred := ph.Block().Preds[i]
+			if p2, isPhi := e.(*ssa.Phi); isPhi && !seen[p2] && p2.Block() != header.Block() && p2.Block() == pred && P.InCycle(p2) {
+				seen[p2] = true
+				// from the nested join, the edge into ph's block must be unconditional
+				if len(pred.Succs) != 1 {
+					taut, _ := an.EquivDNF(P.EdgeCond(fn, p2.Block(), pred, ph.Block(), keep), an.DNF{an.Conj{}})
+					if !taut {
+						ok = false
+					}
+				}
+				walk(p2)
+				continue
+			}
+			out = append(out, phiLeaf{e, pred, ph.Block()})
+		}
+	}
+	walk(header)
+	return out, ok
 }
 
 func accName(ph *ssa.Phi) string {
@@ -579,6 +626,7 @@ func init() {
 			getIndex(c)
 			bufferRangeDiff(c)
 			registerAndCommit(c)
+			getAsync(c)          // "fails loudly" also for a consumer that falls behind while it is blocked: get()'s error must end the wait
 			bufferWriterAudit(c) // Slice/Size equal the put order only if Put copies into the buffer's own array and only a prefix is ever dropped
 			out := c.sel(func(o *an.Oblig) bool {
 				if isUndecided(o) || o.Rule == "ANCHOR" {
@@ -594,6 +642,9 @@ func init() {
 			})
 			var mine []*an.Oblig
 			for _, o := range c.C.List {
+				if funcHas(o, "(*Buffer).getAsync") && !subjHas(o, "a verdict of get() ends the wait", "the waiter reports an error only if get() failed") {
+					continue // the rest of getAsync belongs to C01 / C05
+				}
 				if funcHas(o, "DefaultCleaner", "FixedBufferCleaner", "cleanupLogic", "consumerOffsets", "(*Buffer).Size", "(*Buffer).Slice", "(*Buffer).get", "(*Buffer).Diff", "(*Buffer).NewConsumer", "(*Buffer).commit") || o.Rule == "ANCHOR" || o.Rule == "WR" {
 					mine = append(mine, o)
 				}
